@@ -5,7 +5,7 @@ R=${VP_RUN_REPO:?needs a repo snapshot}
 export VERIF_REPO=$R
 for d in seeded/*/; do
   n=$(basename $d); prop=$(/venv/bin/python -c "import json;print(json.load(open('$d/meta.json'))['breaks_property'])" 2>/dev/null) || continue
-  git -C $R apply $d/patch.diff 2>/dev/null || { echo "$n $prop PATCH-DOES-NOT-APPLY"; continue; }
+  git -C $R apply "$(pwd)/$d/patch.diff" 2>/dev/null || { echo "$n $prop PATCH-DOES-NOT-APPLY"; continue; }
   out=$(./check $prop --tier quick 2>&1); rc=$?
   git -C $R checkout -- . 
   neut=$(grep -c neutralised_by_repair $d/meta.json)
